@@ -27,9 +27,10 @@ What is proved here:
   anywhere leave no node);
 
 * `mirror_statement_list_roundtrip` — one level up, again for the mirror itself (`Parse.statementList`,
-  `statementsOrEmpty`, `statement`, `ifStatement`, `whileStatement`, `repeatStatement`): the token list of every
+  `statementsOrEmpty`, `statement`, `ifStatement`, `caseStatement`, `forStatement`, `whileStatement`, `repeatStatement`): the token list of every
   statement list built from assignments to named variables, IF … THEN … {ELSIF … THEN …} [ELSE …] END_IF, WHILE … DO … END_WHILE,
-  REPEAT … UNTIL … END_REPEAT, FOR … := … TO … [BY …] DO … END_FOR, EXIT and RETURN — nested to any depth, bodies of any length, any `MX.S`
+  REPEAT … UNTIL … END_REPEAT, FOR … := … TO … [BY …] DO … END_FOR, CASE … OF {n {, n} : …} [ELSE …] END_CASE
+  (unsigned integer selectors), EXIT and RETURN — nested to any depth, bodies of any length, any `MX.S`
   expression as condition or right-hand side — is read back as exactly the list of trees the grammar actions
   build: every statement, in order, each body under the statement it was written in (nothing dropped,
   duplicated, reordered or re-nested), with the fuel the driver really uses;
@@ -133,6 +134,24 @@ example :
   intro id kw semi
   exact ⟨⟨rfl, rfl, rfl, rfl, ⟨⟨rfl, rfl, rfl, rfl, rfl, ⟨⟨rfl, rfl, rfl⟩, rfl, trivial⟩, ⟨rfl, rfl, trivial⟩, rfl,
     ⟨rfl, rfl, rfl, ⟨rfl, rfl, trivial⟩, rfl, trivial⟩⟩, rfl, trivial⟩, rfl⟩, rfl, trivial⟩
+
+/-- non-vacuity: `CASE a OF 1, 2: x := b; 3: EXIT; ELSE RETURN; END_CASE;` meets `WF` -/
+example :
+    let id (s : String) : Item := ⟨false, "Identifier", 0, 0, 0, 0, s.toList⟩
+    let kw (ty s : String) : Item := ⟨false, ty, 0, 0, 0, 0, s.toList⟩
+    let semi := kw "Semicolon" ";"
+    (MX.Stl.cons (.caseElse (kw "Case" "CASE") (kw "Of" "OF") (.leaf (id "a"))
+        (.cons (kw "Digits" "1") 1 [(kw "Comma" ",", kw "Digits" "2", 2)] (kw "Colon" ":")
+            (.cons (.assign (id "x") (kw "Assignment" ":=") (.leaf (id "b"))) semi .nil)
+          (.cons (kw "Digits" "3") 3 [] (kw "Colon" ":") (.cons (.exitS (kw "Exit" "EXIT")) semi .nil) .nil))
+        (kw "Else" "ELSE") (.cons (.returnS (kw "Return" "RETURN")) semi .nil) (kw "EndCase" "END_CASE")) semi .nil).WF := by
+  intro id kw semi
+  refine ⟨⟨rfl, rfl, rfl, rfl, rfl, ⟨rfl, by decide, ?_, rfl, ⟨⟨rfl, rfl, rfl⟩, rfl, trivial⟩, rfl,
+    ⟨rfl, by decide, (by intro m hm; cases hm), rfl, ⟨rfl, rfl, trivial⟩, rfl, trivial⟩⟩, ⟨rfl, rfl, trivial⟩, rfl⟩, rfl, trivial⟩
+  intro m hm
+  simp only [List.mem_singleton] at hm
+  subst hm
+  exact ⟨rfl, rfl, by decide⟩
 
 /-- **Round trip of whole libraries through the parser mirror**: programs without variable blocks, any number, any
 statements of `MX.Stl`. -/
